@@ -1,7 +1,7 @@
 (* C02, PyPI part: semver.PyPI orders versions as PEP 440 (pip's packaging) does.
    Statements only; proofs in Semver/Pep440C02_proofs.v.
 
-   The full statement is false for the code as it is (known findings F-C02-2, F-C02-4):
+   The full statement is false for the code as it is (known findings F-C02-2, F-C02-22):
    C02_pypi_refuted and one lemma per witness, each also replayed on the Go code by the
    check.  C02_pypi_partial is the statement on the sub-domain c02_pypi_dom (exported to
    the generator by extraction).  Acceptance of normalised forms: C02_pypi_accepts_*. *)
